@@ -191,6 +191,10 @@ def retryable_table(facts, R, module):
                 pass
             else:
                 R.bad("stop-rows", b.path, "result-row", "is_retryable_error computes %s (unrecognised shape)" % render(v), s.get("span"))
+    for i, t in b.calls():
+        if t["dest"]["l"] == 0 and not t["dest"]["p"]:
+            R.bad("stop-rows", b.path, "result-row", "is_retryable_error's result is computed by %s(..): some error other than the enumerated io kinds can be "
+                  "classified retryable (a server reply must never be retried)" % t["callee"]["path"], t.get("span"))
     kinds = None
     for i, s in rows_true:
         fs = facts_at(b, sym, facts, i)
